@@ -87,3 +87,20 @@ def zero_paths(it, paths):
 def known_nonzero(it, st, sym):
     iv = it.interval_of(Rat.sym(sym), st)
     return iv.excludes_zero()
+
+
+def full_range(node, bound_suffix):
+    """`for (v = 0; v < <... bound_suffix>; v++)`: the loop visits every index of [0, bound)"""
+    from xvlib.facts import walk as _walk, show as _show
+    if not node or node.get('k') != 'ForStmt':
+        return False
+    init0 = any(a.get('k') == 'BinaryOperator' and a['op'] == '=' and a['c'][1].get('v') == 0 for a in _walk(node.get('init') or {})) or \
+        any(d.get('init', {}).get('v') == 0 for a in _walk(node.get('init') or {}) if a.get('k') == 'DeclStmt' for d in a.get('decls', []))
+    cond = node.get('cond') or {}
+    inc = node.get('inc') or {}
+    if not (init0 and cond.get('k') == 'BinaryOperator' and cond.get('op') == '<'):
+        return False
+    var = _show(cond['c'][0])
+    step = (inc.get('k') == 'UnaryOperator' and inc.get('op') == '++' and _show(inc['c'][0]) == var) or \
+        (inc.get('k') == 'CompoundAssignOperator' and inc.get('op') == '+=' and _show(inc['c'][0]) == var and inc['c'][1].get('v') == 1)
+    return bool(step) and _show(cond['c'][1]).replace(' ', '').endswith(bound_suffix)
